@@ -54,3 +54,30 @@ Fixpoint split_stream (msgs : list bval) (k : nat) : list bval * bytes :=
       then (m :: fst (split_stream t (k - length e)), snd (split_stream t (k - length e)))
       else ([], firstn k e)
   end.
+
+(** ** JSON: the documented coercions, stated directly on values.
+    Keywords and symbols become strings (with their namespace), lists/sets/vectors become
+    vectors, map keys become the string [name] of the key. *)
+From Verif Require Import C19.Json.
+
+Fixpoint coerce (v : jval) : jval :=
+  match v with
+  | JKw ns nm | JSym ns nm => JStr (qualified ns nm)
+  | JVec l | JList l | JSet l => JVec (map coerce l)
+  | JMap m => JMap (map (fun kv => (JKStr (key_name (fst kv)), coerce (snd kv))) m)
+  | _ => v
+  end.
+
+(** the coercion of keys is injective on every map of the value *)
+Fixpoint nodupb (l : list str) : bool :=
+  match l with
+  | [] => true
+  | x :: t => negb (existsb (str_eqb x) t) && nodupb t
+  end.
+
+Fixpoint jkeys_distinct (v : jval) : bool :=
+  match v with
+  | JVec l | JList l | JSet l => forallb jkeys_distinct l
+  | JMap m => nodupb (map (fun kv => key_name (fst kv)) m) && forallb (fun kv => jkeys_distinct (snd kv)) m
+  | _ => true
+  end.
